@@ -38,6 +38,31 @@ def _setup_clock():
     return tm
 
 
+def mk_address(a):
+    """station numbers of the scenarios -> bacpypes addresses: 0..255 a local station with a one-octet MAC; net*1000 + mac
+    (1000..99999) a remote station on network `net`; 100000 + mac a local station with the two-octet MAC 00:mac"""
+    from bacpypes.pdu import Address, RemoteStation
+    a = int(a)
+    if a >= 100000:
+        return Address(bytes([0, a % 1000]))
+    if a >= 1000:
+        return RemoteStation(a // 1000, a % 1000)
+    return Address(a)
+
+
+def addr_no(address):
+    """the inverse of mk_address, reading the fields of the Address object (not comparing Address objects)"""
+    if address is None or not address.addrAddr:
+        return -1
+    raw = bytes(address.addrAddr)
+    net = address.addrNet
+    if net is not None:
+        return net * 1000 + raw[0]
+    if len(raw) == 2:
+        return 100000 + raw[1]
+    return raw[0]
+
+
 def ms(t):
     return int(round(t * 1000))
 
@@ -141,35 +166,74 @@ class World(object):
             def confirmation(self, apdu):
                 world.app_confirmation(self.addr, apdu)
 
+        from bacpypes.app import ApplicationIOController
+
+        class IOApp(ApplicationIOController):
+            def __init__(self, addr):
+                ApplicationIOController.__init__(self, None, deviceInfoCache=DeviceInfoCache())
+                self.addr = addr
+
+            def indication(self, apdu):
+                world.app_indication(self.addr, apdu)
+
+        from bacpypes.appservice import ApplicationServiceAccessPoint
+
+        class RawASAP(ApplicationServiceAccessPoint):
+            def indication(self, apdu):
+                self.sap_request(apdu)
+
+            def confirmation(self, apdu):
+                self.sap_response(apdu)
+
         for cfg in spec['nodes']:
             addr = cfg['addr']
-            n = {'cfg': cfg, 'address': Address(addr)}
+            n = {'cfg': cfg, 'address': mk_address(addr)}
             if not cfg.get('raw'):
                 cache = DeviceInfoCache()
                 for peer, k in (cfg.get('know') or {}).items():
                     # what the peer announced in its I-Am, through the public entry point
                     iam = IAmRequest(iAmDeviceIdentifier=('device', int(peer)), maxAPDULengthAccepted=k.get('maxApdu'),
                                      segmentationSupported=k.get('seg', 'noSegmentation'), vendorID=999)
-                    iam.pduSource = Address(int(peer))
+                    iam.pduSource = mk_address(peer)
                     cache.iam_device_info(iam)
-                    di = cache.get_device_info(Address(int(peer)))
+                    di = cache.get_device_info(mk_address(peer))
                     if di is not None:
                         # learned by reading the peer's device object (not carried by I-Am)
                         if k.get('maxSegs') is not None:
                             di.maxSegmentsAccepted = k.get('maxSegs')
                         if k.get('maxNpdu') is not None:
                             di.maxNpduLength = k.get('maxNpdu')
-                smap = StateMachineAccessPoint(Dev(cfg), cache)
+                # the real device object, built from what the scenario configures (a stand-in when the scenario says so):
+                # the predicates judge by the scenario's values, never by what the device object reports back
+                if cfg.get('dev') == 'stub':
+                    dev = Dev(cfg)
+                else:
+                    from bacpypes.local.device import LocalDeviceObject
+                    dev = LocalDeviceObject(objectName='node%d' % addr, objectIdentifier=('device', addr % 4000000), vendorIdentifier=999,
+                                            maxApduLengthAccepted=cfg['maxApdu'], segmentationSupported=cfg['seg'],
+                                            maxSegmentsAccepted=cfg['maxSegs'], numberOfApduRetries=cfg['retries'],
+                                            apduTimeout=cfg['apduTimeout'], apduSegmentTimeout=cfg['segTimeout'])
+                smap = StateMachineAccessPoint(dev, cache)
                 smap.proposedWindowSize = cfg['window']
                 smap.applicationTimeout = cfg['appTimeout']
-                app = App(addr)
+                if cfg.get('via_iocb'):
+                    # the client application talks to the stack through IOCBs (app.ApplicationIOController + per-peer SieveQueue)
+                    app = IOApp(addr)
+                else:
+                    app = App(addr)
                 med = Medium(addr)
-                bind(app, smap, med)
+                if cfg.get('via_iocb'):
+                    # with the real ApplicationServiceAccessPoint on the way down (it copies the request and hands the invoke id
+                    # back only after the stack returns); upwards the raw PDUs are passed through undecoded
+                    bind(app, RawASAP(), smap, med)
+                else:
+                    bind(app, smap, med)
                 n.update(smap=smap, app=app, med=med, cache=cache)
             self.nodes[addr] = n
         # server application behaviour: (src, payload) -> request record
         self.policy = {}
         self.parked = {}
+        self.iocbs = []
         for i, r in enumerate(spec.get('requests') or []):
             r = dict(r)
             r['no'] = i
@@ -196,7 +260,7 @@ class World(object):
         x.encode(p)
         encoded = bytes(p.pduData)
         dst = apdu.pduDestination
-        dsta = dst.addrAddr[0] if (dst is not None and dst.addrAddr) else -1
+        dsta = addr_no(dst)
         # the header as it is on the wire: decode the octets again
         y = APDU()
         y.decode(PDU(encoded))
@@ -226,7 +290,7 @@ class World(object):
             return
         a = APDU()
         try:
-            a.decode(PDU(octets, source=Address(src), destination=Address(dst)))
+            a.decode(PDU(octets, source=mk_address(src), destination=mk_address(dst)))
         except Exception as e:
             self.exn(e, 'decode', dst)
             return
@@ -244,7 +308,7 @@ class World(object):
     def app_indication(self, addr, apdu):
         """server side: a request (or an abort from the client) reaches the application"""
         t = self.trace
-        src = apdu.pduSource.addrAddr[0] if apdu.pduSource is not None else -1
+        src = addr_no(apdu.pduSource)
         h = hdr_of(apdu)
         data = bytes(apdu.pduData)
         t.ev('ind', ms(NOW[0]), addr, src, h['type'], h['invoke'], data, h['reason'])
@@ -290,7 +354,7 @@ class World(object):
             a = AbortPDU(True, job['invoke'], job['resp'][1])
         else:
             raise ValueError(kind)
-        a.pduDestination = Address(job['to'])
+        a.pduDestination = mk_address(job['to'])
         self.trace.ev('respond', ms(NOW[0]), job['node'], job['to'], job['invoke'], job['no'], kind)
         try:
             self.nodes[job['node']]['app'].response(a)
@@ -299,7 +363,7 @@ class World(object):
 
     def app_confirmation(self, addr, apdu):
         t = self.trace
-        src = apdu.pduSource.addrAddr[0] if apdu.pduSource is not None else -1
+        src = addr_no(apdu.pduSource)
         h = hdr_of(apdu)
         data = bytes(apdu.pduData) if apdu.pduData is not None else b''
         t.ev('conf', ms(NOW[0]), addr, src, h['type'], h['invoke'], data, h['reason'])
@@ -311,18 +375,35 @@ class World(object):
         if n['cfg'].get('raw'):
             return          # a request of a raw peer is only the script of the server application's answer
         a = ConfirmedRequestPDU(r.get('service', 12))
-        a.pduDestination = Address(r['dst'])
+        a.pduDestination = mk_address(r['dst'])
         if r.get('invoke') is not None:
             a.apduInvokeID = r['invoke']
         a.put_data(req_payload(r['no'], r['len']))
-        live = [(tr.pdu_address.addrAddr[0], tr.invokeID) for tr in n['smap'].clientTransactions]
+        live = [(addr_no(tr.pdu_address), tr.invokeID) for tr in n['smap'].clientTransactions]
         # the event is placed before the call (a local abort is delivered inside it) and completed afterwards
         pos = len(self.trace.events)
         want = -1 if r.get('invoke') is None else r['invoke']
         self.trace.ev('submit', ms(NOW[0]), r['src'], r['dst'], r['no'], want, 0, tuple(live))
         code = 0
         try:
-            n['app'].request(a)
+            if n['cfg'].get('via_iocb'):
+                from bacpypes.iocb import IOCB
+                io = IOCB(a)
+                box = {}
+
+                def cb(iocb, _addr=r['src']):
+                    x = iocb.ioResponse if iocb.ioResponse is not None else iocb.ioError
+                    if isinstance(x, Exception):
+                        box['exc'] = x          # refused with an exception below: reported through the IOCB
+                    else:
+                        self.app_confirmation(_addr, x)
+                io.add_callback(cb)
+                self.iocbs.append(io)
+                n['app'].request_io(io)
+                if 'exc' in box:
+                    raise box['exc']
+            else:
+                n['app'].request(a)
         except Exception as e:
             from pyerr import exc_code
             code = exc_code(e)
@@ -357,7 +438,7 @@ class World(object):
         n = self.nodes[ia['node']]
         iam = IAmRequest(iAmDeviceIdentifier=('device', int(ia['peer'])), maxAPDULengthAccepted=ia['maxApdu'],
                          segmentationSupported=ia['seg'], vendorID=999)
-        iam.pduSource = Address(int(ia['peer']))
+        iam.pduSource = mk_address(ia['peer'])
         self.trace.ev('iam', ms(NOW[0]), ia['node'], ia['peer'], ia['maxApdu'], ia['seg'])
         try:
             n['cache'].iam_device_info(iam)
@@ -374,7 +455,7 @@ class World(object):
             sm = n['smap']
             for role, lst in (('c', sm.clientTransactions), ('s', sm.serverTransactions)):
                 for tr in lst:
-                    out.append((addr, role, tr.pdu_address.addrAddr[0], -1 if tr.invokeID is None else tr.invokeID,
+                    out.append((addr, role, addr_no(tr.pdu_address), -1 if tr.invokeID is None else tr.invokeID,
                                 tr.state, ms(tr.taskTime) if tr.isScheduled else -1))
         return tuple(out)
 
@@ -458,7 +539,7 @@ class World(object):
         for addr, n in self.nodes.items():
             if n.get('smap') is ssap and ssap is not None:
                 role = 'c' if type(task).__name__ == 'ClientSSM' else 's'
-                return (addr, role, task.pdu_address.addrAddr[0], -1 if task.invokeID is None else task.invokeID, task.state)
+                return (addr, role, addr_no(task.pdu_address), -1 if task.invokeID is None else task.invokeID, task.state)
         return (-1, '?', -1, -1, -1)
 
 
@@ -696,6 +777,16 @@ def check_c04(tr):
                         f.append({'kind': 'transaction-kept-after-outcome', 'req': no, 'state': state, 'armed': armed})
     for (pos, e) in unmatched:
         f.append({'kind': 'outcome-without-request', 'node': e[2], 'src': e[3], 'invoke': e[5], 'type': e[4]})
+    # bounded time: when a time-out is processed no other transaction's timer is overdue (armed for an earlier instant)
+    snap = ()
+    for e in tr.events:
+        if e[0] == 'state':
+            snap = e[2]
+        elif e[0] == 'fire':
+            over = [x for x in snap if x[5] != -1 and x[5] < e[1]]
+            if over:
+                f.append({'kind': 'timer-overdue', 't': e[1], 'fired': list(e[2:7]), 'overdue': [list(x) for x in over[:3]]})
+                break
     # a transaction that left its table keeps no timer
     for e in tr.events:
         if e[0] == 'state' and len(e) > 3 and e[3]:
@@ -1018,10 +1109,14 @@ def knowledge_states(tr, node, peer, pos_from, pos_to):
 
 def check_c12(tr):
     f = []
+    # where an attempt of a request (re)starts: its submission, and every expiry of the client's timer in AWAIT_CONFIRMATION
+    # (the whole request is issued again: ClientSSM re-evaluates sizes and capabilities then, so is it judged)
     sub_pos = {}
     for pos, e in enumerate(tr.events):
         if e[0] == 'submit':
             sub_pos.setdefault((e[2], e[3], e[5]), []).append(pos)
+        elif e[0] == 'fire' and e[3] == 'c' and e[6] == 2:
+            sub_pos.setdefault((e[2], e[4], e[5]), []).append(pos)
     last_req = {}        # (server, client, invoke) -> header of the request frame most recently delivered
     first_win = {}       # (receiver, sender, invoke, type) -> proposed window of the first segment delivered
     last_ack_win = {}
@@ -1067,9 +1162,11 @@ def check_c12(tr):
                     f.append({'kind': 'segmented-request-to-incapable-peer', 'frame': fr['idx'], 'peer_seg': states[-1].get('seg')})
             if limit is not None and fr['enc_len'] > limit:
                 kk = (knowledge_states(tr, src, dst, pos, pos)[-1] or {})
+                subs = [p for p in sub_pos.get((src, dst, h['invoke']), []) if p <= pos and tr.events[p][0] == 'submit']
+                norec = bool(subs) and knowledge_states(tr, src, dst, subs[-1], subs[-1])[0] is None
                 f.append({'kind': 'apdu-longer-than-peer-max', 'frame': fr['idx'], 'role': frame_role(fr), 'enc_len': fr['enc_len'],
                           'limit': limit, 'payload_len': len(fr['data']), 'resp_dir': resp_dir, 'src': src, 'dst': dst,
-                          'sender_iam_value': kk.get('maxApdu')})
+                          'sender_iam_value': kk.get('maxApdu'), 'no_record_at_submit': norec})
             if ty in (0, 3) and h['seg'] == 1 and h['seq'] != 0:
                 lw = last_ack_win.get((src, dst, h['invoke'], ty))
                 if lw is not None and h['win'] > lw:
@@ -1083,6 +1180,14 @@ def check_c12(tr):
                 pw = first_win.get((src, dst, h['invoke'], tty))
                 if pw is not None and h['win'] > pw:
                     f.append({'kind': 'window-larger-than-proposed', 'frame': fr['idx'], 'win': h['win'], 'proposed': pw})
+    # "when a message cannot be sent within those limits the requester is told so with an abort instead"
+    if not tr.livelock:
+        res, unmatched, sub = request_outcomes(tr)
+        for no, (pos, e) in sub.items():
+            if e[6] == 0 and not res.get(no):
+                sent_any = any(fr['src'] == e[2] and fr['dst'] == e[3] and fr['hdr']['type'] == 0 and fr['hdr']['invoke'] == e[5] for fr in tr.frames)
+                if not sent_any:
+                    f.append({'kind': 'requester-not-told', 'req': no})
     # number of segments of a response within the request's limit
     for (src, dst, inv, ty, _no), idxs in transfers(tr).items():
         if ty == 0:
@@ -1311,6 +1416,8 @@ def gen_capability(rng, big=True):
     if not big:
         rlen, plen = min(rlen, 700), min(plen, 900 if cmax == 50 else 700)
     req = {'t': 0, 'src': 1, 'dst': 2, 'len': max(0, rlen), 'service': 12, 'resp': ['complex', max(0, plen)], 'resp_delay': 0}
+    if rng.random() < 0.5:
+        nodes[0]['via_iocb'] = True       # the same request through ApplicationIOController.request_io (no invoke id chosen by the application)
     return {'nodes': nodes, 'requests': [req]}
 
 
@@ -1380,6 +1487,44 @@ def gen_bidirectional(rng):
         where = {'after': rng.randrange(0, n + 1)} if n and rng.random() < 0.7 else {'t': rng.choice([0, 125, 500, 1000, 3000, 9000])}
         inj.append(dict(where, src=a, dst=b, frame=fr))
     spec['inject'] = inj
+    return spec
+
+
+def gen_same_mac(rng):
+    """stations that differ only in the network number (1:5, 2:5), or in the length of the MAC (05 vs 00:05), or are local vs
+    remote with equal octets: as clients of one server with equal invoke ids, and as servers of one client that uses the
+    same application-chosen id towards each"""
+    cmax = rng.choice([50, 128])
+    mk = lambda a: node_cfg(a, maxApdu=cmax, window=2, retries=rng.choice([0, 1, 2]), apduTimeout=rng.choice([1000, 3000]), segTimeout=500,
+                            appTimeout=rng.choice([3000, 6000]))
+    mac = rng.choice([5, 7, 200])
+    twins = rng.sample([mac, 1000 + mac, 2000 + mac, 100000 + mac, 65000 + mac], rng.choice([2, 2, 3, 4]))
+    reqs = []
+    if rng.random() < 0.5:
+        # the twins are clients of one server
+        nodes = [mk(a) for a in twins] + [mk(10)]
+        for a in twins:
+            for k in range(rng.choice([1, 1, 2])):
+                kind = rng.choice(['complex', 'complex', 'simple', 'error'])
+                resp = ['complex', rng.choice([4, cmax - 3, cmax + 9])] if kind == 'complex' else ['error', 4] if kind == 'error' else [kind]
+                reqs.append({'t': rng.choice([0, 0, 125, 500]), 'src': a, 'dst': 10, 'len': rng.choice([2, 7, cmax + 3]), 'service': 12,
+                             'resp': resp, 'resp_delay': rng.choice([0, 250, 1500, 4000])})
+    else:
+        # the twins are servers of one client, which picks the same invoke id towards each of them
+        nodes = [mk(1)] + [mk(a) for a in twins]
+        for a in twins:
+            for k in range(rng.choice([1, 1, 2])):
+                kind = rng.choice(['complex', 'complex', 'simple', 'error'])
+                resp = ['complex', rng.choice([4, cmax - 3, cmax + 9])] if kind == 'complex' else ['error', 4] if kind == 'error' else [kind]
+                r = {'t': rng.choice([0, 0, 125, 500]), 'src': 1, 'dst': a, 'len': rng.choice([2, 7, cmax + 3]), 'service': 12,
+                     'resp': resp, 'resp_delay': rng.choice([0, 250, 1500, 4000])}
+                if rng.random() < 0.6:
+                    r['invoke'] = rng.choice([3, 7])
+                reqs.append(r)
+    spec = {'nodes': nodes, 'requests': reqs}
+    if rng.random() < 0.4:
+        n = len(run_scenario(spec).frames)
+        spec['faults'] = rand_faults(rng, n, rng.randrange(1, 3))
     return spec
 
 
